@@ -7,6 +7,7 @@ is reconstructed as a gated term  γ(discr(scrutinee); variant -> value)  and ev
 compared with its row.  Exhaustiveness is checked against the enum definition.
 """
 from . import mir, tdctx, canon
+from .base import verdict_of, errtext
 from .base import (inst, OK, VIOLATION, UNDECIDED, P, C, F, K, ANY, Agg, AggV, VF, T, match, strip,
                    gamma_arms, bool_arms, callee_is)
 from .facts import CheckerError
@@ -140,6 +141,7 @@ def run(prog):
     out += evaluate_encoding(prog)
     out += topdown_unsat(prog)
     out += dimacs_sign(prog)
+    out += string_sign(prog)
     return out
 
 
@@ -501,6 +503,62 @@ def topdown_unsat(prog):
             e = e or match(C("false_ptr"), u)
         out.append(inst("DP", key, VIOLATION if e else OK, fn, ctx.cs.line, e or "DecisionResult::UNSAT ↦ false_ptr"))
     return out
+
+
+def string_sign(prog):
+    """`Cnf::from_string` ("(-1 || 0 || 2) && (1)"): a literal is written as a signed *label* (no offset: label = |n|), so
+    it is negative exactly when the number is negative — a strict comparison with zero, because 0 names variable 0."""
+    fs_ = [f for f in prog.lib_fns if f.name == "from_string" and f.impl_self == "repr::cnf::Cnf" and f.kind != "Closure"]
+    if len(fs_) != 1:
+        return [inst("DP", "repr::cnf::Cnf::from_string:sign", UNDECIDED, None, None, "from_string not found")]
+    fn = fs_[0]
+    errs, n = [], 0
+    for g in canon.local_bodies(prog, fn):
+        for cs in g.terms.calls:
+            if not (cs.callee.name == "new" and "Literal" in cs.callee.key() and len(cs.args) == 2):
+                continue
+            n += 1
+            lab, pol = strip(cs.args[0]), strip(cs.args[1])
+            num = None
+            for x in mir.subterms(lab):
+                x = strip(x)
+                if mir.is_call(x, "abs") or mir.is_call(x, "unsigned_abs"):
+                    num = strip(x[2][0])
+            if num is None:
+                errs.append("?the label is %s, not |n| of the parsed number" % show(lab)[:50])
+                continue
+            if any(strip(x)[0] == "bin" and strip(x)[1].startswith(("Sub", "Add")) for x in mir.subterms(lab)):
+                errs.append("?the label is offset (%s): the sign convention of an offset format is not checked here" % show(lab)[:50])
+                continue
+            neg = False
+            p = pol
+            while p[0] == "un" and p[1] == "Not":
+                neg = not neg
+                p = strip(p[2])
+            if not (p[0] == "bin" and p[1] in ("Lt", "Le", "Gt", "Ge") and (strip(p[2]) == num or strip(p[3]) == num)):
+                errs.append("?the polarity is %s" % show(pol)[:50])
+                continue
+            op = p[1]
+            zero_side = strip(p[3]) if strip(p[2]) == num else strip(p[2])
+            if not (zero_side[0] == "const" and zero_side[2] == "0"):
+                errs.append("?the polarity compares the number with %s" % show(zero_side)[:20])
+                continue
+            if strip(p[2]) != num:
+                op = {"Lt": "Gt", "Gt": "Lt", "Le": "Ge", "Ge": "Le"}[op]
+            if neg:
+                op = {"Lt": "Ge", "Ge": "Lt", "Le": "Gt", "Gt": "Le"}[op]
+            # op now reads: polarity = (n op 0)
+            if op == "Ge":
+                pass
+            elif op == "Gt":
+                errs.append("the literal is positive only for n > 0: `0`, which names variable 0 (label = |n|, no offset), is read "
+                            "as the *negative* literal of variable 0, and its positive literal cannot be written at all")
+            else:
+                errs.append("the literal is positive for n %s 0: the sign convention is inverted" % {"Lt": "<", "Le": "<="}[op])
+    if not n:
+        errs.append("?no literal is built in from_string")
+    return [inst("DP", "%s:sign" % fn.npath, verdict_of(errs), fn, None, errtext(errs) if errs else
+                 "literal(|n|, n >= 0): negative exactly for negative numbers")]
 
 
 def dimacs_sign(prog):
